@@ -230,6 +230,7 @@ fn lz_decoder_scripts(rep: &mut Report, rng: &mut Rng, n: u64) {
 
 pub fn run_c07(rep: &mut Report, rng: &mut Rng, thorough: bool) {
     run_window_exact(rep, &mut rng.fork(), thorough);
+    run_preset_continuation(rep, &mut rng.fork(), thorough);
     // BCJ2: the four input streams in pieces, the output in reads of 1..7 / 4096 / 70000 bytes
     crate::bcj2::run(rep, rng, thorough);
     lz_decoder_scripts(rep, rng, if thorough { 30000 } else { 3000 });
@@ -534,8 +535,59 @@ fn run_window_exact(rep: &mut Report, rng: &mut Rng, thorough: bool) {
     }
 }
 
+/// a preset dictionary that the input continues (the dictionary is the beginning of a text, the input its
+/// continuation; the last bytes of the dictionary are still pending in the match finder when the first write
+/// arrives), written with very small first writes vs one write: the bytes must be the same
+fn run_preset_continuation(rep: &mut Report, rng: &mut Rng, thorough: bool) {
+    let n = if thorough { 60 } else { 12 };
+    for i in 0..n {
+        let mut r = rng.fork();
+        let bt4 = i % 3 != 2;
+        let normal = i % 2 == 0;
+        let lzma2 = i % 4 < 2;
+        // a text with many repeated phrases that share prefixes (several continuations per 4-byte string)
+        let phrases: Vec<Vec<u8>> = (0..12).map(|k| { let mut p = b"the quick ".to_vec(); p.extend(gen_data(&mut r, "text", 3 + k)); p }).collect();
+        let mut text = Vec::new();
+        while text.len() < 2500 {
+            let ph: &Vec<u8> = r.pick(&phrases[..]);
+            text.extend_from_slice(ph);
+        }
+        let cut = r.range(150, 1200) as usize;
+        let (preset, data) = (text[..cut].to_vec(), text[cut..].to_vec());
+        let lz = LzOpts { dict: 4096, lc: 3, lp: 0, pb: 2, normal, nice: *r.pick(&[16u32, 32, 64]), bt4, depth: 0, preset: Some(preset.clone()) };
+        let run = |parts: &[usize]| -> Outcome<Vec<u8>> {
+            if lzma2 { lzma2_compress(&data, &lz, None, parts, 0) } else { lzma_compress(&data, &lz, LzmaFmt::RawMarker, parts) }
+        };
+        let name = if lzma2 { "lzma2" } else { "lzma" };
+        let detail = |what: &str| json!({"stratum": "preset-continuation", "writer": name, "opts": lz.json(), "preset_len": preset.len(), "data_len": data.len(), "preset_hex": hex(&preset), "data_hex": hex(&data), "partition": what});
+        rep.count("stratum.preset-continuation");
+        match run(&[data.len()]) {
+            Outcome::Ok(x) => {
+                for parts in [vec![1usize], vec![1, 1, 1], vec![2], vec![3], vec![5, 7], vec![40], vec![1, 300], vec![r.range(1, 60) as usize]] {
+                    let mut p = parts.clone();
+                    let used: usize = p.iter().sum();
+                    p.push(data.len() - used);
+                    let what = format!("{parts:?}+rest");
+                    match run(&p) {
+                        Outcome::Ok(z) => {
+                            if z != x {
+                                rep.fail(&format!("partition-dependent-bytes:{name}:preset"), &format!("with a preset dictionary, first writes {what} produced different bytes ({} vs {}) than a single write", z.len(), x.len()), detail(&what));
+                            }
+                        }
+                        other => rep.fail(&format!("partition-{}:{name}", other.class()), &other.describe(), detail(&what)),
+                    }
+                    rep.evaluations += 1;
+                }
+            }
+            other => rep.fail(&format!("write-{}:{name}", other.class()), &other.describe(), detail("single write")),
+        }
+        rep.case(format!("preset-continuation:{name}:{normal}:{bt4}:{}", i % 6), true, || detail("case"));
+    }
+}
+
 pub fn run_c13(rep: &mut Report, rng: &mut Rng, thorough: bool) {
     run_window_exact(rep, &mut rng.fork(), thorough);
+    run_preset_continuation(rep, &mut rng.fork(), thorough);
     let n = if thorough { 1500 } else { 160 };
     let max = if thorough { 1 << 20 } else { 80 << 10 };
     // keep some garbage allocated between runs so that the allocator state differs
@@ -601,7 +653,69 @@ pub fn run_c13(rep: &mut Report, rng: &mut Rng, thorough: bool) {
     }
 }
 
+/// LZIPWriterMT cuts members of exactly the configured size whatever the write partition: a short write followed by
+/// one that spans several members, writes longer than a member, one write, random partitions
+fn run_c18_lzip_mt(rep: &mut Report, rng: &mut Rng, thorough: bool) {
+    let n = if thorough { 60 } else { 10 };
+    for i in 0..n {
+        let mut r = rng.fork();
+        let dict = 4096u32;
+        let member = *r.pick(&[4096u64, 5000, 10_000, 16_384]);
+        let len = (member as usize) * r.range(3, 9) as usize + r.range(0, member) as usize;
+        let kind = *r.pick(&["text", "mixed", "random"]);
+        let data = gen_data(&mut r, kind, len);
+        let lz = LzOpts { dict, lc: 3, lp: 0, pb: 2, normal: false, nice: 32, bt4: false, depth: 0, preset: None };
+        let first = r.range(1, member - 1) as usize;
+        let big = (member as usize * 27) / 10;
+        let mut equal = vec![];
+        let mut left = len;
+        while left > 0 {
+            let k = big.min(left);
+            equal.push(k);
+            left -= k;
+        }
+        let partitions: Vec<(String, Vec<usize>)> = vec![
+            ("one".into(), vec![len]),
+            (format!("short({first})+rest"), vec![first, len - first]),
+            (format!("equal({big})"), equal),
+            gen_partition(&mut r, len),
+        ];
+        let mut expect: Vec<u64> = vec![member; len / member as usize];
+        if len as u64 % member != 0 {
+            expect.push(len as u64 % member);
+        }
+        for (pstyle, parts) in partitions {
+            let workers = *r.pick(&[1u32, 2, 3]);
+            let comp = guard(|| {
+                let mut opts = LZIPOptions { lzma_options: lz.to_opts(), member_size: None };
+                opts.set_member_size(std::num::NonZeroU64::new(member));
+                let mut w = LZIPWriterMT::new(Vec::new(), opts, workers)?;
+                write_parts(&mut w, &data, &parts, 0)?;
+                w.finish()
+            });
+            let detail = || json!({"writer": "lzip-mt", "member_size": member, "data_len": len, "data_kind": kind, "partition": pstyle, "parts_head": &parts[..parts.len().min(8)], "workers": workers});
+            rep.count("writer.lzipmt");
+            match comp {
+                Outcome::Ok(c) => {
+                    let sizes = lzip_member_sizes(&c);
+                    if sizes != expect {
+                        rep.fail("lzipmt-member-sizes", &format!("member data sizes {:?}... differ from members of exactly {member} bytes + remainder (partition {pstyle})", &sizes[..sizes.len().min(8)]), detail());
+                    }
+                    match lzip_decompress(&c, &[65536], len + 16) {
+                        Outcome::Ok((out, _)) if out == data => {}
+                        other => rep.fail("lzipmt-roundtrip", &other.describe(), detail()),
+                    }
+                }
+                other => rep.fail(&format!("lzipmt-write-{}", other.class()), &other.describe(), detail()),
+            }
+            rep.evaluations += 1;
+        }
+        rep.case(format!("lzipmt:{member}:{kind}"), true, || json!({"writer": "lzip-mt", "member_size": member, "data_len": len}));
+    }
+}
+
 pub fn run_c18(rep: &mut Report, rng: &mut Rng, thorough: bool) {
+    run_c18_lzip_mt(rep, &mut rng.fork(), thorough);
     let n = if thorough { 3000 } else { 240 };
     let max = if thorough { 2 << 20 } else { 200 << 10 };
     for i in 0..n {
